@@ -9,13 +9,19 @@
 //!   begin <zones> <deny> <allow>
 //!   req <u|t> <src> <hex> <body> <edns> <zl>   body/edns/zl are (re)computed here with the real code
 //!   end
-use std::collections::BTreeMap;
+use std::cell::RefCell;
+use std::collections::{BTreeMap, VecDeque};
+use std::future::Future;
+use std::io;
 use std::net::{IpAddr, Ipv4Addr, Ipv6Addr, SocketAddr};
+use std::task::Poll;
 use std::sync::{Arc, Mutex};
 use std::time::{Duration, Instant};
 
 use futures_util::{FutureExt, StreamExt};
-use hickory_net::runtime::Time;
+use hickory_net::runtime::iocompat::AsyncIoTokioAsStd;
+use hickory_net::runtime::{DnsUdpSocket, RuntimeProvider, Spawn, Time, TokioTime};
+use hickory_net::udp::UdpStream;
 use hickory_net::xfer::Protocol;
 use hickory_net::BufDnsStreamHandle;
 use hickory_proto::op::{Edns, Header, Message, MessageRequest, MessageType, OpCode, Queries, Query, ResponseCode};
@@ -25,6 +31,8 @@ use hickory_proto::serialize::binary::{BinDecodable, BinDecoder};
 use hickory_server::dnssec::NxProofKind;
 use hickory_server::server::{verif_handle_request, Request, RequestHandler, RequestInfo, ResponseHandler};
 use hickory_server::store::in_memory::InMemoryZoneHandler;
+use hickory_server::Server;
+use tokio::io::{AsyncReadExt, AsyncWriteExt};
 use hickory_server::zone_handler::{
     AuthLookup, AxfrPolicy, AxfrRecords, Catalog, LookupControlFlow, LookupError, LookupOptions, LookupRecords,
     Nsec3QueryInfo, ZoneHandler, ZoneTransfer, ZoneType,
@@ -133,6 +141,8 @@ impl ZoneHandler for Logged {
 #[derive(Clone, Copy, Debug, PartialEq)]
 enum LRes {
     Ok,
+    /// `Ok(records)` holding a record that cannot be encoded (a 300-octet character-string)
+    Unenc,
     Err(u16),
 }
 
@@ -146,6 +156,12 @@ enum Flow {
 fn lres(r: LRes) -> Result<AuthLookup, LookupError> {
     match r {
         LRes::Ok => Ok(AuthLookup::Empty),
+        LRes::Unenc => {
+            let n = name("unencodable.invalid.");
+            let mut set = hickory_proto::rr::RecordSet::new(n.clone(), RecordType::TXT, 0);
+            set.insert(Record::from_rdata(n, 60, RData::TXT(TXT::new(vec!["y".repeat(300)]))), 0);
+            Ok(AuthLookup::answers(LookupRecords::new(LookupOptions::default(), Arc::new(set)), None))
+        }
         LRes::Err(rc) => Err(LookupError::ResponseCode(<ResponseCode as From<u16>>::from(rc))),
     }
 }
@@ -203,8 +219,13 @@ impl ZoneHandler for Scripted {
         _request_info: Option<&RequestInfo<'_>>,
         _lookup_options: LookupOptions,
     ) -> LookupControlFlow<AuthLookup> {
-        // only reached from `build_authoritative_response` (NS / SOA of the origin)
-        LookupControlFlow::Skip
+        // only reached from `build_authoritative_response` (NS / SOA of the origin): "unexpected
+        // skip", or "failed to lookup soa" / "ns_lookup errored" for every other handler
+        if (self.zi + self.hi) % 2 == 0 {
+            LookupControlFlow::Skip
+        } else {
+            LookupControlFlow::Continue(Err(LookupError::ResponseCode(ResponseCode::ServFail)))
+        }
     }
     async fn consult(
         &self,
@@ -243,7 +264,7 @@ impl ZoneHandler for Scripted {
         self.note("x");
         match self.xfer {
             None => None,
-            Some(LRes::Ok) => Some((
+            Some(LRes::Ok) | Some(LRes::Unenc) => Some((
                 Ok(ZoneTransfer {
                     start_soa: LookupRecords::Empty,
                     records: AxfrRecords::new(false, vec![]),
@@ -274,10 +295,16 @@ enum HSpec {
 struct ZSpec {
     origin: Name,
     handlers: Vec<HSpec>,
+    /// `Catalog::remove(origin)` instead of an upsert
+    remove: bool,
 }
 
 struct Cfg {
     zones: Vec<ZSpec>,
+    /// the entry is a configured zone (not removed, not replaced by a later entry)
+    live: Vec<bool>,
+    /// origins for which `Catalog::contains` disagrees with that
+    contains_wrong: Vec<String>,
     deny: Vec<IpNet>,
     allow: Vec<IpNet>,
     catalog: Arc<Catalog>,
@@ -287,11 +314,14 @@ struct Cfg {
     /// survival probe: a known-good query and the response it got before any other request
     probe: Vec<u8>,
     baseline: Vec<Vec<u8>>,
+    /// the real `Server` on loopback sockets (started at the first `U`/`T` request of the block)
+    loop_srv: RefCell<Option<LoopSrv>>,
 }
 
 fn parse_lres(s: &str) -> Option<LRes> {
     match s {
         "o" => Some(LRes::Ok),
+        "u" => Some(LRes::Unenc),
         _ => Some(LRes::Err(s.strip_prefix('e')?.parse().ok()?)),
     }
 }
@@ -311,6 +341,7 @@ fn parse_flow(s: &str) -> Option<Flow> {
 fn flow_tok(f: Flow) -> String {
     let r = |r: LRes| match r {
         LRes::Ok => "o".to_string(),
+        LRes::Unenc => "u".to_string(),
         LRes::Err(c) => format!("e{c}"),
     };
     match f {
@@ -355,7 +386,7 @@ fn handler_tok(h: &HSpec) -> String {
             update,
             match xfer {
                 None => "n".to_string(),
-                Some(LRes::Ok) => "o".into(),
+                Some(LRes::Ok) | Some(LRes::Unenc) => "o".into(),
                 Some(LRes::Err(c)) => format!("e{c}"),
             }
         ),
@@ -370,7 +401,10 @@ fn parse_zones(s: &str) -> Option<Vec<ZSpec>> {
         .map(|z| {
             let (n, hs) = z.split_once('=')?;
             let handlers = if hs == "-" { vec![] } else { hs.split(',').map(parse_handler).collect::<Option<_>>()? };
-            Some(ZSpec { origin: parse_name(n)?, handlers })
+            match n.strip_prefix('-') {
+                Some(n) => Some(ZSpec { origin: parse_name(n)?, handlers: vec![], remove: true }),
+                None => Some(ZSpec { origin: parse_name(n)?, handlers, remove: false }),
+            }
         })
         .collect()
 }
@@ -382,7 +416,7 @@ fn zones_tok(z: &[ZSpec]) -> String {
     z.iter()
         .map(|z| {
             let hs = if z.handlers.is_empty() { "-".to_string() } else { z.handlers.iter().map(handler_tok).collect::<Vec<_>>().join(",") };
-            format!("{}={}", name_tok(&z.origin), hs)
+            format!("{}{}={}", if z.remove { "-" } else { "" }, name_tok(&z.origin), hs)
         })
         .collect::<Vec<_>>()
         .join("|")
@@ -444,6 +478,15 @@ fn mem_zone(origin: &Name, axfr: bool) -> InMemoryZoneHandler {
     if ns != abs {
         z.upsert_mut(Record::from_rdata(ns, 60, RData::A(A::new(192, 0, 2, 53))), 0);
     }
+    // a zone called big.*: one RRset that does not fit any datagram (≈ 70 kB of TXT)
+    if origin.iter().next().is_some_and(|l| l.eq_ignore_ascii_case(b"big")) {
+        if let Some(h) = sub("huge") {
+            for i in 0..280u32 {
+                let txt = format!("{i:03}{}", "x".repeat(237));
+                z.upsert_mut(Record::from_rdata(h.clone(), 60, RData::TXT(TXT::new(vec![txt]))), 0);
+            }
+        }
+    }
     // a delegation point: names at and below it get a referral (AA clear)
     if let Some(d) = sub("deleg") {
         z.upsert_mut(Record::from_rdata(d, 3600, RData::NS(NS(name("ns.elsewhere.invalid.")))), 0);
@@ -477,11 +520,38 @@ fn build_cfg(zones: Vec<ZSpec>, deny: Vec<IpNet>, allow: Vec<IpNet>) -> Cfg {
                 })),
             }
         }
-        catalog.upsert(LowerName::from(&z.origin), hs);
+        if z.remove {
+            catalog.remove(&LowerName::from(&z.origin));
+        } else {
+            catalog.upsert(LowerName::from(&z.origin), hs);
+        }
+    }
+    // which entries are the configured zones: an upsert that no later entry for the same key
+    // (same labels up to case, same fqdn flag) replaces or removes
+    let same_key = |a: &Name, b_: &Name| a.is_fqdn() == b_.is_fqdn() && a.iter().map(lower).eq(b_.iter().map(lower));
+    let live: Vec<bool> = (0..zones.len())
+        .map(|i| !zones[i].remove && !zones[i + 1..].iter().any(|l| same_key(&l.origin, &zones[i].origin)))
+        .collect();
+    // `Catalog::contains` must say so
+    let mut contains_wrong = vec![];
+    for (i, z) in zones.iter().enumerate() {
+        let last = (0..zones.len()).rev().find(|j| same_key(&zones[*j].origin, &z.origin)).unwrap_or(i);
+        if catalog.contains(&LowerName::from(&z.origin)) != live[last] {
+            contains_wrong.push(name_tok(&z.origin));
+        }
+    }
+    // every other catalog identifies itself (RFC 5001): the OPT of its responses carries the NSID
+    // when asked for — the rest of the response must not depend on it
+    if zones.len() >= 2 && zones.len() % 2 == 0 {
+        catalog.set_nsid(Some(hickory_proto::rr::rdata::opt::NSIDPayload::new(b"hk-verif".to_vec()).expect("nsid")));
+        assert!(catalog.nsid().is_some());
     }
     // survival probe: www.<first absolute in-memory zone>, else a fixed name
     let probe_name = zones
         .iter()
+        .enumerate()
+        .filter(|(i, _)| live[*i])
+        .map(|(_, z)| z)
         .find(|z| z.origin.is_fqdn() && matches!(z.handlers.first(), Some(HSpec::Mem { .. })))
         .and_then(|z| Name::from_ascii("www").ok()?.append_domain(&z.origin).ok())
         .unwrap_or_else(|| Name::from_ascii("alive.invalid.").unwrap());
@@ -490,7 +560,7 @@ fn build_cfg(zones: Vec<ZSpec>, deny: Vec<IpNet>, allow: Vec<IpNet>) -> Cfg {
     m.metadata.recursion_desired = true;
     m.add_query(Query::new(probe_name, RecordType::A));
     let probe = m.to_vec().expect("probe encodes");
-    Cfg { zones, deny, allow, catalog: Arc::new(catalog), mems, log, probe, baseline: vec![] }
+    Cfg { zones, live, contains_wrong, deny, allow, catalog: Arc::new(catalog), mems, log, probe, baseline: vec![], loop_srv: RefCell::new(None) }
 }
 
 // ------------------------------------------------------------------ running one message
@@ -526,6 +596,41 @@ fn serve(rt: &tokio::runtime::Runtime, cfg: &Cfg, deny: &[IpNet], allow: &[IpNet
             out.push(m.into_parts().0);
         }
         out
+    })
+}
+
+/// `Request::from_bytes` + `<Catalog as RequestHandler>::handle_request` with a `ResponseHandle`
+/// (`None`: `from_bytes` failed)
+fn serve_catalog(rt: &tokio::runtime::Runtime, cfg: &Cfg, bytes: &[u8], src: SocketAddr, proto: Protocol) -> Option<Vec<Vec<u8>>> {
+    let catalog = cfg.catalog.clone();
+    rt.block_on(async move {
+        let request = Request::from_bytes(bytes.to_vec(), src, proto).ok()?;
+        // accessors of the request as the handler sees it
+        assert_eq!(request.as_slice(), bytes);
+        assert_eq!(request.src(), src);
+        let (handle, mut rx) = BufDnsStreamHandle::new(src);
+        let rh = hickory_server::server::ResponseHandle::new(src, handle, proto);
+        let echo = request.queries.as_bytes().to_vec();
+        catalog.handle_request::<_, TokioTime>(&request, rh).await;
+        let mut out = vec![];
+        while let Some(Some(m)) = rx.next().now_or_never() {
+            let m = m.into_parts().0;
+            // the question section of whatever is sent is `Queries::as_bytes()`
+            assert!(m.len() < 12 || u16::from_be_bytes([m[4], m[5]]) == 0 || m[12..].starts_with(&echo), "question section is not Queries::as_bytes()");
+            out.push(m);
+        }
+        Some(out)
+    })
+}
+
+/// the handler with a stream handle whose receiving end is gone: every send fails
+fn serve_closed(rt: &tokio::runtime::Runtime, cfg: &Cfg, bytes: &[u8], src: SocketAddr) {
+    let catalog = cfg.catalog.clone();
+    let (deny, allow) = (cfg.deny.clone(), cfg.allow.clone());
+    rt.block_on(async move {
+        let (handle, rx) = BufDnsStreamHandle::new(src);
+        drop(rx);
+        verif_handle_request(Shared(catalog), &deny, &allow, bytes.to_vec(), src, Protocol::Udp, handle).await;
     })
 }
 
@@ -639,6 +744,283 @@ fn scan_response(r: &[u8]) -> Option<Resp> {
     }
     x.scan_ok = p == r.len();
     Some(x)
+}
+
+
+// ------------------------------------------------------------------ transport under the handler
+
+/// marker sent behind every request on the loop transports: an unknown opcode is answered NOTIMP by
+/// the gate alone (no zone handler is called), so its response delimits the request's responses
+const MARK_ID: u16 = 0xA11F;
+
+fn marker() -> Vec<u8> {
+    let mut m = header(MARK_ID, 0x0F << 3, 0, 0, 0, 0, 0);
+    m[2] &= 0x7F;
+    m
+}
+
+/// a request answered by the gate alone (NOTIMP) that is not the marker
+fn ping() -> Vec<u8> {
+    let mut m = marker();
+    m[1] ^= 0xFF;
+    m
+}
+
+/// the real `Server` (handle_udp / handle_tcp, UdpStream, TcpStream) on loopback sockets
+struct LoopSrv {
+    server: Server<Shared>,
+    udp_addr: SocketAddr,
+    tcp_addr: SocketAddr,
+    client: tokio::net::UdpSocket,
+    conn: Option<tokio::net::TcpStream>,
+}
+
+async fn start_loop(cfg: &Cfg) -> io::Result<LoopSrv> {
+    let mut server = Server::with_access(Shared(cfg.catalog.clone()), cfg.deny.iter().copied(), cfg.allow.iter().copied());
+    let u = tokio::net::UdpSocket::bind("127.0.0.1:0").await?;
+    let udp_addr = u.local_addr()?;
+    server.register_socket(u);
+    let l = tokio::net::TcpListener::bind("127.0.0.1:0").await?;
+    let tcp_addr = l.local_addr()?;
+    server.register_listener(l, Duration::from_secs(30), 32);
+    let client = tokio::net::UdpSocket::bind("127.0.0.1:0").await?;
+    Ok(LoopSrv { server, udp_addr, tcp_addr, client, conn: None })
+}
+
+/// one request through the real server loop; every datagram / frame that comes back before the
+/// marker's response (plus a short grace period for stragglers) belongs to the request.
+/// `Err(what)`: the marker was not answered (server stuck / connection closed).
+fn serve_loop(rt: &tokio::runtime::Runtime, cfg: &Cfg, bytes: &[u8], tcp: bool) -> Result<Vec<Vec<u8>>, String> {
+    rt.block_on(async {
+        if cfg.loop_srv.borrow().is_none() {
+            let srv = start_loop(cfg).await.map_err(|e| format!("cannot start the loopback server: {e}"))?;
+            *cfg.loop_srv.borrow_mut() = Some(srv);
+        }
+        let mut guard = cfg.loop_srv.borrow_mut();
+        let srv = guard.as_mut().unwrap();
+        let mut out: Vec<Vec<u8>> = vec![];
+        let mark = marker();
+        let is_mark = |m: &[u8]| m.len() >= 2 && u16::from_be_bytes([m[0], m[1]]) == MARK_ID;
+        let limit = Duration::from_secs(5);
+        if !tcp {
+            srv.client.send_to(bytes, srv.udp_addr).await.map_err(|e| format!("client send: {e}"))?;
+            srv.client.send_to(&mark, srv.udp_addr).await.map_err(|e| format!("client send: {e}"))?;
+            let mut buf = vec![0u8; 65536];
+            let mut seen_mark = false;
+            loop {
+                let wait = if seen_mark { Duration::from_millis(4) } else { limit };
+                match tokio::time::timeout(wait, srv.client.recv_from(&mut buf)).await {
+                    Ok(Ok((n, _))) => {
+                        if is_mark(&buf[..n]) {
+                            seen_mark = true;
+                        } else {
+                            out.push(buf[..n].to_vec());
+                        }
+                    }
+                    Ok(Err(e)) => return Err(format!("client recv: {e}")),
+                    Err(_) if seen_mark => break,
+                    Err(_) => return Err("the server did not answer the marker request within 5 s (it no longer serves)".into()),
+                }
+            }
+        } else {
+            if srv.conn.is_none() {
+                srv.conn = Some(tokio::net::TcpStream::connect(srv.tcp_addr).await.map_err(|e| format!("connect: {e}"))?);
+            }
+            let c = srv.conn.as_mut().unwrap();
+            let mut w = vec![];
+            for m in [bytes, &mark[..]] {
+                w.extend((m.len() as u16).to_be_bytes());
+                w.extend(m);
+            }
+            let io = async {
+                c.write_all(&w).await?;
+                loop {
+                    let mut l = [0u8; 2];
+                    c.read_exact(&mut l).await?;
+                    let mut m = vec![0u8; u16::from_be_bytes(l) as usize];
+                    c.read_exact(&mut m).await?;
+                    if is_mark(&m) {
+                        return Ok::<(), io::Error>(());
+                    }
+                    out.push(m);
+                }
+            };
+            match tokio::time::timeout(limit, io).await {
+                Ok(Ok(())) => {}
+                Ok(Err(e)) => {
+                    srv.conn = None;
+                    return Err(format!("the TCP connection ended before the marker was answered: {e}"));
+                }
+                Err(_) => {
+                    srv.conn = None;
+                    return Err("the server did not answer the marker request within 5 s (it no longer serves)".into());
+                }
+            }
+        }
+        Ok(out)
+    })
+}
+
+// ---- the real `UdpStream` on a scripted socket -------------------------------------------------
+
+#[derive(Clone, Copy, PartialEq, Debug)]
+enum SendRes {
+    Ok,
+    Err,
+    /// fails, and fails again for the same message (EMSGSIZE-like)
+    Sticky,
+    Wait,
+}
+
+enum RecvItem {
+    D(SocketAddr, Vec<u8>),
+    Pause,
+    Err,
+}
+
+#[derive(Default)]
+struct SockState {
+    recv: VecDeque<RecvItem>,
+    send: VecDeque<SendRes>,
+    /// every `poll_send_to` that returned `Ready`: payload, target, succeeded
+    attempts: Vec<(Vec<u8>, SocketAddr, bool)>,
+    sticky: Vec<(Vec<u8>, SocketAddr)>,
+    /// the socket asked to be polled again
+    woke: bool,
+    calls: usize,
+}
+
+struct ScriptSock(Arc<Mutex<SockState>>);
+
+impl DnsUdpSocket for ScriptSock {
+    type Time = TokioTime;
+    fn poll_recv_from(&self, cx: &mut std::task::Context<'_>, buf: &mut [u8]) -> Poll<io::Result<(usize, SocketAddr)>> {
+        let mut st = self.0.lock().unwrap();
+        st.calls += 1;
+        match st.recv.pop_front() {
+            Some(RecvItem::D(src, d)) => {
+                let n = d.len().min(buf.len());
+                buf[..n].copy_from_slice(&d[..n]);
+                Poll::Ready(Ok((n, src)))
+            }
+            Some(RecvItem::Pause) => {
+                st.woke = true;
+                cx.waker().wake_by_ref();
+                Poll::Pending
+            }
+            Some(RecvItem::Err) => Poll::Ready(Err(io::Error::new(io::ErrorKind::ConnectionReset, "scripted receive error"))),
+            None => Poll::Pending,
+        }
+    }
+    fn poll_send_to(&self, cx: &mut std::task::Context<'_>, buf: &[u8], target: SocketAddr) -> Poll<io::Result<usize>> {
+        let mut st = self.0.lock().unwrap();
+        st.calls += 1;
+        if st.sticky.iter().any(|(b_, t)| b_ == buf && *t == target) {
+            st.attempts.push((buf.to_vec(), target, false));
+            return Poll::Ready(Err(io::Error::new(io::ErrorKind::Other, "scripted EMSGSIZE")));
+        }
+        match st.send.pop_front().unwrap_or(SendRes::Ok) {
+            SendRes::Ok => {
+                st.attempts.push((buf.to_vec(), target, true));
+                Poll::Ready(Ok(buf.len()))
+            }
+            SendRes::Err => {
+                st.attempts.push((buf.to_vec(), target, false));
+                Poll::Ready(Err(io::Error::new(io::ErrorKind::Other, "scripted send error")))
+            }
+            SendRes::Sticky => {
+                st.attempts.push((buf.to_vec(), target, false));
+                st.sticky.push((buf.to_vec(), target));
+                Poll::Ready(Err(io::Error::new(io::ErrorKind::Other, "scripted EMSGSIZE")))
+            }
+            SendRes::Wait => {
+                st.woke = true;
+                cx.waker().wake_by_ref();
+                Poll::Pending
+            }
+        }
+    }
+}
+
+#[derive(Clone, Default)]
+struct NoSpawn;
+impl Spawn for NoSpawn {
+    fn spawn_bg(&mut self, _future: impl Future<Output = ()> + Send + 'static) {}
+}
+
+#[derive(Clone)]
+struct ScriptProv;
+
+impl RuntimeProvider for ScriptProv {
+    type Handle = NoSpawn;
+    type Timer = TokioTime;
+    type Udp = ScriptSock;
+    type Tcp = AsyncIoTokioAsStd<tokio::net::TcpStream>;
+    fn create_handle(&self) -> Self::Handle {
+        NoSpawn
+    }
+    fn connect_tcp(&self, _server_addr: SocketAddr, _bind_addr: Option<SocketAddr>, _timeout: Option<Duration>) -> std::pin::Pin<Box<dyn Send + Future<Output = Result<Self::Tcp, io::Error>>>> {
+        Box::pin(async { Err(io::Error::new(io::ErrorKind::Unsupported, "no tcp in this script")) })
+    }
+    fn bind_udp(&self, _local_addr: SocketAddr, _server_addr: SocketAddr) -> std::pin::Pin<Box<dyn Send + Future<Output = Result<Self::Udp, io::Error>>>> {
+        Box::pin(async { Err(io::Error::new(io::ErrorKind::Unsupported, "scripted socket only")) })
+    }
+}
+
+/// `handle_udp`'s loop (stream.next → spawn handle_raw_request with the stream's handle re-addressed
+/// to the source; an `Err` item is logged and the loop goes on) around the real `UdpStream` on the
+/// scripted socket.  Returns the socket's record and whether the loop had to be stopped as livelocked.
+fn run_udp_script(rt: &tokio::runtime::Runtime, cfg: &Cfg, recv: Vec<RecvItem>, send: Vec<SendRes>) -> (Vec<(Vec<u8>, SocketAddr, bool)>, bool) {
+    let items = recv.len() + send.len();
+    let st = Arc::new(Mutex::new(SockState { recv: recv.into(), send: send.into(), ..Default::default() }));
+    let st2 = st.clone();
+    let catalog = cfg.catalog.clone();
+    let (deny, allow) = (cfg.deny.clone(), cfg.allow.clone());
+    let livelocked = rt.block_on(async move {
+        let (mut stream, handle) = UdpStream::<ScriptProv>::with_bound(ScriptSock(st2.clone()), ([127, 255, 255, 254], 0).into());
+        let mut tasks = tokio::task::JoinSet::new();
+        let mut idle_polls = 0;
+        let mut polls = 0usize;
+        let budget = 40 * (items + 10);
+        loop {
+            polls += 1;
+            if polls > budget {
+                return true;
+            }
+            st2.lock().unwrap().woke = false;
+            let calls_before = st2.lock().unwrap().calls;
+            let r = std::future::poll_fn(|cx| Poll::Ready(stream.poll_next_unpin(cx))).await;
+            match r {
+                Poll::Ready(Some(Ok(message))) => {
+                    idle_polls = 0;
+                    let (bytes, src) = message.into_parts();
+                    let h = handle.with_remote_addr(src);
+                    let (c, d, a) = (catalog.clone(), deny.clone(), allow.clone());
+                    tasks.spawn(async move { verif_handle_request(Shared(c), &d, &a, bytes, src, Protocol::Udp, h).await });
+                }
+                Poll::Ready(Some(Err(_))) => idle_polls = 0, // "error receiving message on udp_socket": continue
+                Poll::Ready(None) => return false,
+                Poll::Pending => {
+                    // let the request handlers run, then look again
+                    tokio::task::yield_now().await;
+                    while tasks.try_join_next().is_some() {}
+                    let s = st2.lock().unwrap();
+                    let progressed = s.woke || s.calls > calls_before + 1;
+                    drop(s);
+                    if progressed {
+                        idle_polls = 0;
+                    } else {
+                        idle_polls += 1;
+                        if idle_polls >= 3 && tasks.is_empty() {
+                            return false;
+                        }
+                    }
+                }
+            }
+        }
+    });
+    let attempts = std::mem::take(&mut st.lock().unwrap().attempts);
+    (attempts, livelocked)
 }
 
 // ------------------------------------------------------------------ the property's oracle (independent of the model)
@@ -774,10 +1156,10 @@ fn encloses(zone: &Name, name: &Name) -> bool {
 
 /// index of the configured zone with the longest origin enclosing `name` (the last upsert of an
 /// origin is the configured one)
-fn right_zone(zones: &[ZSpec], name: &Name) -> Option<usize> {
+fn right_zone(zones: &[ZSpec], live: &[bool], name: &Name) -> Option<usize> {
     let mut best: Option<usize> = None;
     for (i, z) in zones.iter().enumerate() {
-        if encloses(&z.origin, name) {
+        if live[i] && encloses(&z.origin, name) {
             match best {
                 Some(b) if zones[b].origin.num_labels() > z.origin.num_labels() => {}
                 _ => best = Some(i),
@@ -814,6 +1196,16 @@ const BADVERS: u16 = 16;
 
 impl Runner {
     fn exec(&mut self, line: &str, rec: &mut Recorder) {
+        let t0 = Instant::now();
+        self.exec_inner(line, rec);
+        if std::env::var("C11_TIMING").is_ok() {
+            let t: Vec<&str> = line.split_whitespace().collect();
+            let k = format!("zz-time-us.{}.{}", t.first().unwrap_or(&""), if t.first() == Some(&"req") { t.get(1).unwrap_or(&"") } else { "" });
+            rec.stat_n(&k, t0.elapsed().as_micros() as u64);
+        }
+    }
+
+    fn exec_inner(&mut self, line: &str, rec: &mut Recorder) {
         let t: Vec<&str> = line.split_whitespace().collect();
         match t.as_slice() {
             ["begin", zones, deny, allow] => {
@@ -837,6 +1229,12 @@ impl Runner {
                     }
                     Err(p) => rec.fail(idx, format!("panic on the known-good probe query: {p}"), ""),
                 }
+                if !cfg.contains_wrong.is_empty() {
+                    rec.fail(idx, format!("Catalog::contains disagrees with the upsert/remove history for {:?}", cfg.contains_wrong), "");
+                }
+                if cfg.zones.iter().any(|z| z.remove) {
+                    rec.stat("cfg.with-removed-zone");
+                }
                 rec.stat(&format!("cfg.zones={}", cfg.zones.len().min(6)));
                 rec.stat(&format!("cfg.acl.deny={} allow={}", b(!cfg.deny.is_empty()), b(!cfg.allow.is_empty())));
                 if cfg.zones.iter().any(|z| z.handlers.len() > 1) {
@@ -845,27 +1243,262 @@ impl Runner {
                 self.cfg = Some(cfg);
             }
             ["end"] => {
+                let idx = rec.case(line.to_string(), "ok".into());
+                // a server that ran on loopback sockets during the block shuts down in good order
+                if let Some(mut srv) = self.cfg.as_ref().and_then(|c| c.loop_srv.borrow_mut().take()) {
+                    let r = self.rt.block_on(async { tokio::time::timeout(Duration::from_secs(5), srv.server.shutdown_gracefully()).await });
+                    match r {
+                        Ok(Ok(())) => rec.stat("loop.shutdown-ok"),
+                        Ok(Err(e)) => rec.fail(idx, format!("the server loop ended with an error at shutdown: {e}"), ""),
+                        Err(_) => rec.fail(idx, "the server did not shut down within 5 s", ""),
+                    }
+                }
                 self.cfg = None;
-                rec.case(line.to_string(), "ok".into());
             }
-            ["req", proto, src, bytes, ..] => {
+            ["tcp", stream] => {
+                let (Some(cfg), Some(bytes)) = (self.cfg.as_ref(), unhex(stream)) else {
+                    rec.stat("skipped.unparsable-case");
+                    return;
+                };
+                Self::tcp_raw(&self.rt, cfg, line, &bytes, rec);
+            }
+            [kind @ ("req" | "cat"), proto, src, bytes, ..] => {
                 let (Some(cfg), Some(ip), Some(bytes)) = (self.cfg.as_ref(), parse_ip(src), unhex(bytes)) else {
                     rec.stat("skipped.unparsable-case");
                     return;
                 };
-                let protocol = if *proto == "t" { Protocol::Tcp } else { Protocol::Udp };
-                Self::request(&self.rt, cfg, proto, ip, protocol, &bytes, rec);
+                let protocol = if matches!(*proto, "t" | "T") { Protocol::Tcp } else { Protocol::Udp };
+                // `U` / `T`: through the real server loop on loopback — the source is 127.0.0.1
+                let ip = if matches!(*proto, "U" | "T") { IpAddr::V4(Ipv4Addr::LOCALHOST) } else { ip };
+                Self::request(&self.rt, cfg, kind, proto, ip, protocol, &bytes, rec);
+            }
+            ["udp", recv, send] => {
+                let Some(cfg) = self.cfg.as_ref() else {
+                    rec.stat("skipped.unparsable-case");
+                    return;
+                };
+                Self::udp_script(&self.rt, cfg, line, recv, send, rec);
             }
             _ => rec.stat("skipped.unparsable-case"),
         }
     }
 
-    fn request(rt: &tokio::runtime::Runtime, cfg: &Cfg, proto: &str, ip: IpAddr, protocol: Protocol, bytes: &[u8], rec: &mut Recorder) {
+    /// `tcp <hex>`: a raw octet stream on a fresh TCP connection to the real server (several
+    /// length-prefixed requests back to back, possibly a partial frame at the end), write side closed
+    /// after the last octet; everything the server sends until it closes the connection is read.
+    fn tcp_raw(rt: &tokio::runtime::Runtime, cfg: &Cfg, line: &str, stream: &[u8], rec: &mut Recorder) {
+        *CURRENT.lock().unwrap() = Some((Instant::now(), line.to_string()));
+        // the complete frames of the stream (a zero-length frame ends the connection: see there)
+        let mut frames: Vec<&[u8]> = vec![];
+        let mut p = 0;
+        while p + 2 <= stream.len() {
+            let l = u16::from_be_bytes([stream[p], stream[p + 1]]) as usize;
+            if l == 0 || p + 2 + l > stream.len() {
+                break;
+            }
+            frames.push(&stream[p + 2..p + 2 + l]);
+            p += 2 + l;
+        }
+        // reference: what the handler produces for each of them, in order
+        let src: SocketAddr = "127.0.0.1:4242".parse().unwrap();
+        let mut want: Vec<Vec<u8>> = vec![];
+        let mut fails: Vec<String> = vec![];
+        for f in &frames {
+            match catch(|| serve(rt, cfg, &cfg.deny, &cfg.allow, f, src, Protocol::Tcp)) {
+                Ok(v) => want.extend(v),
+                Err(p_) => fails.push(format!("panic while handling a request: {p_}")),
+            }
+        }
+        cfg.log.lock().unwrap().clear();
+        // make sure the server runs
+        let _ = serve_loop(rt, cfg, &ping(), true);
+        let got: Result<Vec<Vec<u8>>, String> = rt.block_on(async {
+            let addr = cfg.loop_srv.borrow().as_ref().map(|s| s.tcp_addr).ok_or("no server")?;
+            let io = async {
+                let mut c = tokio::net::TcpStream::connect(addr).await?;
+                c.write_all(stream).await?;
+                c.shutdown().await?;
+                // everything up to the end of the connection (a reset after data still counts)
+                let mut all = vec![];
+                let mut buf = vec![0u8; 65536];
+                loop {
+                    match c.read(&mut buf).await {
+                        Ok(0) => break,
+                        Ok(n) => all.extend(&buf[..n]),
+                        Err(e) if e.kind() == io::ErrorKind::ConnectionReset => break,
+                        Err(e) => return Err(e),
+                    }
+                }
+                Ok::<Vec<u8>, io::Error>(all)
+            };
+            let all = match tokio::time::timeout(Duration::from_secs(5), io).await {
+                Ok(Ok(a)) => a,
+                Ok(Err(e)) => return Err(format!("client i/o: {e}")),
+                Err(_) => return Err("the server neither answered nor closed the connection within 5 s".to_string()),
+            };
+            let mut out = vec![];
+            let mut p = 0;
+            while p + 2 <= all.len() {
+                let l = u16::from_be_bytes([all[p], all[p + 1]]) as usize;
+                if p + 2 + l > all.len() {
+                    return Err("the server sent a partial frame".to_string());
+                }
+                out.push(all[p + 2..p + 2 + l].to_vec());
+                p += 2 + l;
+            }
+            Ok(out)
+        });
+        if std::env::var("C11_TIMING").is_ok() {
+            eprintln!("tcp-io {} us frames={} len={} tail={}", CURRENT.lock().unwrap().as_ref().map(|c| c.0.elapsed().as_micros()).unwrap_or(0), frames.len(), stream.len(), stream.len() - p);
+        }
+        cfg.log.lock().unwrap().clear();
+        // and the server still serves the next connection
+        match serve_loop(rt, cfg, &ping(), true) {
+            Ok(v) if v.len() == 1 => {}
+            Ok(v) => fails.push(format!("after the stream: {} responses to a request on a new connection", v.len())),
+            Err(w) => fails.push(format!("after the stream: {w}")),
+        }
+        cfg.log.lock().unwrap().clear();
+        *CURRENT.lock().unwrap() = None;
+        rec.stat("tcp.streams");
+        rec.stat_n("tcp.frames", frames.len() as u64);
+        if p < stream.len() {
+            rec.stat("tcp.partial-or-empty-tail");
+        }
+        match &got {
+            Err(w) => fails.push(format!("transport: {w}")),
+            Ok(v) if *v != want => fails.push(format!(
+                "{} complete requests on one connection: the handler produces {} responses, {} came back (or other bytes / another order)",
+                frames.len(),
+                want.len(),
+                v.len()
+            )),
+            _ => {}
+        }
+        rec.impl_only += 1;
+        let idx = rec.case(line.to_string(), "~".into());
+        if frames.len() > 1 {
+            rec.nontrivial(idx);
+        }
+        for f in fails {
+            rec.fail(idx, f, "");
+        }
+    }
+
+    /// `udp <recv> <send>`: datagrams through the real `UdpStream` on a scripted socket
+    fn udp_script(rt: &tokio::runtime::Runtime, cfg: &Cfg, line: &str, recv: &str, send: &str, rec: &mut Recorder) {
+        let mut items = vec![];
+        let mut dgrams: Vec<(SocketAddr, Vec<u8>)> = vec![];
+        for it in recv.split(',') {
+            let f: Vec<&str> = it.split('/').collect();
+            match f.as_slice() {
+                ["d", src, port, h] => {
+                    let (Some(ip), Ok(port), Some(b_)) = (parse_ip(src), port.parse::<u16>(), unhex(h)) else {
+                        rec.stat("skipped.unparsable-case");
+                        return;
+                    };
+                    let a = SocketAddr::new(ip, port);
+                    dgrams.push((a, b_.clone()));
+                    items.push(RecvItem::D(a, b_));
+                }
+                ["p"] => items.push(RecvItem::Pause),
+                ["x"] => items.push(RecvItem::Err),
+                _ => {
+                    rec.stat("skipped.unparsable-case");
+                    return;
+                }
+            }
+        }
+        let script: Option<Vec<SendRes>> = if send == "-" {
+            Some(vec![])
+        } else {
+            send.chars()
+                .map(|c| match c {
+                    'o' => Some(SendRes::Ok),
+                    'e' => Some(SendRes::Err),
+                    'E' => Some(SendRes::Sticky),
+                    'w' => Some(SendRes::Wait),
+                    _ => None,
+                })
+                .collect()
+        };
+        let Some(script) = script else {
+            rec.stat("skipped.unparsable-case");
+            return;
+        };
+        *CURRENT.lock().unwrap() = Some((Instant::now(), line.to_string()));
+        cfg.log.lock().unwrap().clear();
+        let n_fail = script.iter().filter(|x| matches!(x, SendRes::Err | SendRes::Sticky)).count();
+        let n_wait = script.iter().filter(|x| matches!(x, SendRes::Wait)).count();
+        let r = catch(|| run_udp_script(rt, cfg, items, script));
+        cfg.log.lock().unwrap().clear();
+        let probe_src: SocketAddr = "127.0.0.1:5353".parse().unwrap();
+        let after = catch(|| serve(rt, cfg, &[], &[], &cfg.probe, probe_src, Protocol::Udp));
+        cfg.log.lock().unwrap().clear();
+        *CURRENT.lock().unwrap() = None;
+        rec.stat("udp.scripts");
+        rec.stat_n("udp.datagrams", dgrams.len() as u64);
+        rec.stat_n("udp.scripted-send-failures", n_fail as u64);
+        rec.stat_n("udp.scripted-send-pendings", n_wait as u64);
+        let mut fails: Vec<String> = vec![];
+        let out = match &r {
+            Err(p) => {
+                fails.push(format!("panic in the UDP stream / handler: {p}"));
+                format!("panic {p}")
+            }
+            Ok((attempts, livelocked)) => {
+                if *livelocked {
+                    fails.push("livelock: the stream kept returning without making progress (a message that cannot be sent is retried forever; no further datagram is read)".into());
+                }
+                // oracle: a response is owed to every datagram that is not a response and not shorter
+                // than a header; it is handed to the socket exactly once (whether that send succeeds
+                // or not), addressed to the datagram's source, with QR set and the datagram's id
+                let mut toks = vec![];
+                for (src, d) in &dgrams {
+                    let owed = d.len() >= 12 && d[2] & 0x80 == 0;
+                    let mine: Vec<&(Vec<u8>, SocketAddr, bool)> = attempts.iter().filter(|(_, t, _)| t == src).collect();
+                    if owed {
+                        if mine.len() != 1 {
+                            fails.push(format!("the response to the datagram from {src} was handed to the socket {} times (exactly once expected)", mine.len()));
+                        }
+                        for (p_, _, _) in &mine {
+                            if p_.len() < 12 || p_[..2] != d[..2] || p_[2] & 0x80 == 0 {
+                                fails.push(format!("what was sent to {src} is not a response with the request's id"));
+                            }
+                        }
+                    } else if !mine.is_empty() {
+                        fails.push(format!("{} datagram(s) sent to {src} in reply to a message that is itself a response or shorter than a header", mine.len()));
+                    }
+                    toks.push(match mine.as_slice() {
+                        [] => "-".to_string(),
+                        [(_, _, true)] => "a".to_string(),
+                        [(_, _, false)] => "f".to_string(),
+                        m => format!("!{}", m.len()),
+                    });
+                }
+                format!("udp {}", toks.join(","))
+            }
+        };
+        match &after {
+            Err(p) => fails.push(format!("server did not survive: panic on the following known-good query: {p}")),
+            Ok(a) if *a != cfg.baseline => fails.push("server did not survive: known-good query answered differently afterwards".into()),
+            _ => {}
+        }
+        let idx = rec.case(line.to_string(), out);
+        if n_fail > 0 {
+            rec.nontrivial(idx);
+        }
+        for f in fails {
+            rec.fail(idx, f, "");
+        }
+    }
+
+    fn request(rt: &tokio::runtime::Runtime, cfg: &Cfg, kind: &str, proto: &str, ip: IpAddr, protocol: Protocol, bytes: &[u8], rec: &mut Recorder) {
         let src = SocketAddr::new(ip, 4242);
         // summary by the real decoder → canonical case line
         let parsed = catch(|| parse_request(bytes));
         let Ok(parsed) = parsed else {
-            let idx = rec.case(format!("req {proto} {} {} na - -", ip_tok(ip), hex(bytes)), "panic decoder".into());
+            let idx = rec.case(format!("{kind} {proto} {} {} na - -", ip_tok(ip), hex(bytes)), "panic decoder".into());
             rec.fail(idx, "the request decoder panicked", "");
             return;
         };
@@ -904,11 +1537,69 @@ impl Runner {
             _ => vec![],
         };
         let zl_tok = if zl.is_empty() { "-".to_string() } else { zl.join(",") };
-        let line = format!("req {proto} {} {} {body_tok} {edns_tok} {zl_tok}", ip_tok(ip), hex(bytes));
+        let line = format!("{kind} {proto} {} {} {body_tok} {edns_tok} {zl_tok}", ip_tok(ip), hex(bytes));
         *CURRENT.lock().unwrap() = Some((Instant::now(), line.clone()));
 
         cfg.log.lock().unwrap().clear();
-        let got = catch(|| serve(rt, cfg, &cfg.deny, &cfg.allow, bytes, src, protocol));
+        let loop_mode = matches!(proto, "U" | "T");
+        let mut transport_fails: Vec<String> = vec![];
+        let mut unsendable = false;
+        let entry_cat = kind == "cat";
+        let closed = proto == "x";
+        let mut from_bytes_ok = true;
+        let got = if entry_cat {
+            // the other public way in: Request::from_bytes + Catalog::handle_request, no gate
+            catch(|| serve_catalog(rt, cfg, bytes, src, protocol)).map(|r| match r {
+                Some(v) => v,
+                None => {
+                    from_bytes_ok = false;
+                    vec![]
+                }
+            })
+        } else if closed {
+            // the response cannot be handed over (the receiving end of the stream handle is gone):
+            // every `send_response` fails inside the handler
+            catch(|| serve_closed(rt, cfg, bytes, src)).map(|_| vec![])
+        } else if !loop_mode {
+            catch(|| serve(rt, cfg, &cfg.deny, &cfg.allow, bytes, src, protocol))
+        } else {
+            // reference: what the handler produces for this request (hook, no transport) …
+            let reference = catch(|| serve(rt, cfg, &cfg.deny, &cfg.allow, bytes, src, protocol));
+            cfg.log.lock().unwrap().clear();
+            // … and what comes back through Server::register_socket / register_listener
+            let looped = catch(|| serve_loop(rt, cfg, bytes, proto == "T"));
+            match (reference, looped) {
+                (Ok(reference), Ok(Ok(v))) => {
+                    // a response that does not fit an IPv4 datagram cannot be sent: its own send fails
+                    unsendable = proto == "U" && reference.first().is_some_and(|r| r.len() > 65507);
+                    if unsendable {
+                        rec.stat("loop.unsendable-response");
+                        if !v.is_empty() {
+                            transport_fails.push(format!("{} response(s) arrived for a response of {} octets over UDP", v.len(), reference[0].len()));
+                        }
+                    } else if v != reference {
+                        transport_fails.push(format!(
+                            "through the server loop the request got {} response(s), the handler produced {} (or other bytes)",
+                            v.len(),
+                            reference.len()
+                        ));
+                    }
+                    Ok(v)
+                }
+                (_, Ok(Err(_))) if proto == "T" && bytes.is_empty() => {
+                    // a zero-length frame ends the connection (TcpStream reads 0 octets into an empty
+                    // buffer and takes it for EOF): the sender loses its own connection, nobody else
+                    // is affected — framing is C17's business
+                    rec.stat("note.tcp-zero-length-frame-closes-the-connection");
+                    Ok(vec![])
+                }
+                (_, Ok(Err(what))) => {
+                    transport_fails.push(what);
+                    Ok(vec![])
+                }
+                (Err(p), _) | (_, Err(p)) => Err(p),
+            }
+        };
         let log: Vec<String> = std::mem::take(&mut *cfg.log.lock().unwrap());
         // survival: the known-good probe must be answered exactly as before
         let probe_src: SocketAddr = "127.0.0.1:5353".parse().unwrap();
@@ -939,7 +1630,14 @@ impl Runner {
                             None => "?",
                         },
                         hex(&r.qsec),
-                        b(r.opt.is_some()),
+                        // a truncated response may have lost the OPT it owes to an EDNS request (it is
+                        // emitted last and skipped when the records filled the message): C03's business
+                        if r.opt.is_none() && r.tc && parsed.edns_version.is_some() {
+                            rec.stat("note.truncated-response-without-opt");
+                            "1"
+                        } else {
+                            b(r.opt.is_some())
+                        },
                         if log.is_empty() { "-".to_string() } else { log.join(",") },
                         // the real decoder's verdict on the rest of the message (the model decodes
                         // the request itself and prints its own)
@@ -954,6 +1652,27 @@ impl Runner {
                 }
             },
         };
+        // a handler result that cannot be encoded was involved: `MessageResponse::encode` falls back
+        // to a bare SERVFAIL header — the model describes responses whose encoding succeeds
+        let unenc = log.iter().any(|c| {
+            let (k, rest) = c.split_at(1);
+            rest.split_once('.')
+                .and_then(|(z, h)| Some((z.parse::<usize>().ok()?, h.parse::<usize>().ok()?)))
+                .is_some_and(|(z, h)| match cfg.zones[z].handlers.get(h) {
+                    Some(HSpec::Scr { search, consult, .. }) => {
+                        let un = |f: &Flow| matches!(f, Flow::Cont(LRes::Unenc) | Flow::Brk(LRes::Unenc));
+                        (k == "s" && un(search)) || (k == "c" && consult.as_ref().is_some_and(un))
+                    }
+                    _ => false,
+                })
+        });
+        if unenc {
+            rec.stat("class.unencodable-handler-result");
+        }
+        let out = if entry_cat && !from_bytes_ok { "err".to_string() } else { out };
+        // no model side: an unsendable response (the model has no transport), a closed stream handle,
+        // an unencodable handler result
+        let out = if unsendable || closed || unenc { rec.impl_only += 1; "~".to_string() } else { out };
         let idx = rec.case(line, out);
 
         // ---------------------------------------------------------------- oracle
@@ -961,6 +1680,9 @@ impl Runner {
         let mut fails: Vec<(String, &str)> = vec![];
         if let Err(p) = &got {
             fails.push((format!("panic while handling the request: {p}"), ""));
+        }
+        for w in transport_fails {
+            fails.push((format!("transport: {w}"), ""));
         }
         match &after {
             Err(p) => fails.push((format!("server did not survive: panic on the following known-good query: {p}"), "")),
@@ -971,17 +1693,30 @@ impl Runner {
         let must_drop = bytes.len() < 12 || hdr_qr;
         rec.stat(&format!("proto.{proto}"));
         rec.stat(&format!("responses.{}", n.min(3)));
-        if got.is_ok() {
+        if got.is_ok() && closed {
+            rec.stat("class.closed-stream-handle");
+        } else if got.is_ok() && entry_cat {
+            // Request::from_bytes succeeds exactly when header, question and body decode — the same
+            // three steps ServerContext::handle_request makes one by one
+            let expect_ok = parsed.header.is_some() && parsed.question.is_some() && parsed.body == Some(true);
+            if from_bytes_ok != expect_ok {
+                fails.push((format!("Request::from_bytes {} but header/question/body decoding says {}", if from_bytes_ok { "succeeded" } else { "failed" }, expect_ok), ""));
+            }
+            rec.stat(if from_bytes_ok { "cat.from_bytes.ok" } else { "cat.from_bytes.err" });
+            if n != from_bytes_ok as usize {
+                fails.push((format!("{n} responses from Catalog::handle_request for one request"), ""));
+            }
+        } else if got.is_ok() {
             if must_drop {
                 rec.stat(if bytes.len() < 12 { "class.short" } else { "class.qr=1" });
                 if n != 0 {
                     fails.push((format!("{n} response(s) to a message that is itself a response or shorter than a header"), ""));
                 }
-            } else if n != 1 {
+            } else if n != 1 && !unsendable {
                 fails.push((format!("{n} responses to one request (exactly one expected)"), ""));
             }
         }
-        if let (false, Some(r), Ok(v)) = (must_drop, resp.as_ref(), got.as_ref()) {
+        if let (false, Some(r), Ok(v)) = (must_drop && !entry_cat, resp.as_ref(), got.as_ref()) {
             let opcode = (bytes[2] >> 3) & 0xF;
             let id = u16::from_be_bytes([bytes[0], bytes[1]]);
             let rc = (r.opt.map(|o| (o.0 as u16) << 4).unwrap_or(0)) | r.rc_low as u16;
@@ -997,7 +1732,8 @@ impl Runner {
             if !r.scan_ok {
                 fails.push(("response is not a well-formed sequence of sections".into(), ""));
             }
-            let known_op = matches!(opcode, 0 | 2 | 4 | 5);
+            // (through Catalog::handle_request directly every request has its question parsed)
+            let known_op = matches!(opcode, 0 | 2 | 4 | 5) || entry_cat;
             // the table: which verdicts apply to this request
             let mut s: Vec<u16> = vec![];
             if !matches!(opcode, 0 | 5) {
@@ -1012,18 +1748,19 @@ impl Runner {
                     rec.stat("note.reference-says-bad-decoder-says-ok");
                 }
             }
-            let unparsable = parsed.question.is_none() || parsed.body == Some(false) || ref_bad.is_some();
+            // (the catalog on its own: a message that is itself a response is a format error)
+            let unparsable = parsed.question.is_none() || parsed.body == Some(false) || ref_bad.is_some() || (entry_cat && hdr_qr);
             if unparsable {
                 s.push(FORMERR);
             }
-            let denied = ref_denied(&cfg.deny, &cfg.allow, ip);
+            let denied = !entry_cat && ref_denied(&cfg.deny, &cfg.allow, ip);
             if denied {
                 s.push(REFUSED);
             }
             if parsed.edns_version.is_some_and(|v| v > 0) {
                 s.push(BADVERS);
             }
-            let zone = parsed.question.as_ref().and_then(|(_, q)| right_zone(&cfg.zones, &q.name));
+            let zone = parsed.question.as_ref().and_then(|(_, q)| right_zone(&cfg.zones, &cfg.live, &q.name));
             if opcode == 0 && parsed.question.is_some() && zone.is_none() {
                 s.push(REFUSED);
             }
@@ -1081,7 +1818,9 @@ impl Runner {
                                 "the question of the response does not decode to the request's question{}",
                                 if compressed { " (compressed question name in the request)" } else { "" }
                             ),
-                            "",
+                            // the header-only SERVFAIL that `MessageResponse::encode` falls back to when a
+                            // handler's records cannot be encoded
+                            if unenc && r.qd == 0 && rc == 2 { "C11.EncodeFallbackDropsQuestion" } else { "" },
                         ));
                     }
                 }
@@ -1142,7 +1881,13 @@ fn name(s: &str) -> Name {
 const RCS: &[u16] = &[1, 2, 3, 4, 5, 9, 8, 10, 16, 23];
 
 fn gen_lres(r: &mut Rng) -> LRes {
-    if r.chance(1, 2) { LRes::Ok } else { LRes::Err(*r.pick(RCS)) }
+    if r.chance(1, 14) {
+        LRes::Unenc
+    } else if r.chance(1, 2) {
+        LRes::Ok
+    } else {
+        LRes::Err(*r.pick(RCS))
+    }
 }
 
 fn gen_flow(r: &mut Rng) -> Flow {
@@ -1209,7 +1954,17 @@ fn gen_zones(r: &mut Rng) -> Vec<ZSpec> {
         1 => 1,
         _ => r.range(2, 7) as usize,
     };
-    let mut z: Vec<ZSpec> = (0..k).map(|_| ZSpec { origin: r.pick(&pool).clone(), handlers: gen_handlers(r) }).collect();
+    let mut z: Vec<ZSpec> = (0..k).map(|_| ZSpec { origin: r.pick(&pool).clone(), handlers: gen_handlers(r), remove: false }).collect();
+    if r.chance(1, 8) && !z.is_empty() {
+        // remove a configured origin again (written in another case), sometimes configure it anew
+        let victim = r.pick(&z).origin.clone();
+        let mut o = Name::from_ascii(victim.to_ascii().to_uppercase()).unwrap_or(victim.clone());
+        o.set_fqdn(victim.is_fqdn());
+        z.push(ZSpec { origin: o, handlers: vec![], remove: true });
+        if r.chance(1, 3) {
+            z.push(ZSpec { origin: victim, handlers: gen_handlers(r), remove: false });
+        }
+    }
     if r.chance(1, 6) && !z.is_empty() {
         // upsert the same origin again (different letter case): replaces the handlers
         let mut o = z[0].origin.to_ascii().to_uppercase();
@@ -1219,7 +1974,7 @@ fn gen_zones(r: &mut Rng) -> Vec<ZSpec> {
         if let Ok(n) = Name::from_ascii(&o) {
             let mut n = n;
             n.set_fqdn(z[0].origin.is_fqdn());
-            z.push(ZSpec { origin: n, handlers: gen_handlers(r) });
+            z.push(ZSpec { origin: n, handlers: gen_handlers(r), remove: false });
         }
     }
     z
@@ -1838,7 +2593,7 @@ fn body_family() -> Vec<(String, Vec<u8>)> {
 }
 
 fn hand_configs() -> Vec<(Vec<ZSpec>, Vec<IpNet>, Vec<IpNet>)> {
-    let mem = |s: &str| ZSpec { origin: name(s), handlers: vec![HSpec::Mem { axfr: false }] };
+    let mem = |s: &str| ZSpec { origin: name(s), handlers: vec![HSpec::Mem { axfr: false }], remove: false };
     let net = |s: &str| s.parse::<IpNet>().unwrap();
     let scr = |zt, search, consult| HSpec::Scr { zt, search, consult, update: 0, xfer: None };
     use Flow::*;
@@ -1853,15 +2608,15 @@ fn hand_configs() -> Vec<(Vec<ZSpec>, Vec<IpNet>, Vec<IpNet>)> {
         // the chained configurations of chained_zone_handler_tests.rs
         (
             vec![
-                ZSpec { origin: name("continueok.test."), handlers: vec![scr(External, Cont(LRes::Ok), None), scr(External, Cont(LRes::Ok), None)] },
-                ZSpec { origin: name("overwrite.test."), handlers: vec![scr(External, Cont(LRes::Ok), None), scr(External, Skip, Some(Cont(LRes::Err(3))))] },
-                ZSpec { origin: name("breakok.test."), handlers: vec![scr(External, Brk(LRes::Ok), None), scr(External, Brk(LRes::Err(2)), Some(Brk(LRes::Err(2))))] },
-                ZSpec { origin: name("skipprimary.test."), handlers: vec![scr(External, Skip, None), scr(External, Cont(LRes::Ok), None)] },
-                ZSpec { origin: name("skipboth.test."), handlers: vec![scr(Primary, Skip, None), scr(Primary, Skip, None)] },
-                ZSpec { origin: name("primaryerr.test."), handlers: vec![scr(Primary, Cont(LRes::Err(3)), None), scr(Primary, Skip, Some(Cont(LRes::Ok)))] },
-                ZSpec { origin: name("breakerr.test."), handlers: vec![scr(Primary, Brk(LRes::Err(3)), None), scr(Primary, Skip, Some(Cont(LRes::Ok)))] },
-                ZSpec { origin: name("consultskip.test."), handlers: vec![scr(Primary, Cont(LRes::Ok), None), scr(Primary, Skip, Some(Skip))] },
-                ZSpec { origin: name("memfirst.test."), handlers: vec![HSpec::Mem { axfr: true }, scr(Primary, Skip, None)] },
+                ZSpec { origin: name("continueok.test."), handlers: vec![scr(External, Cont(LRes::Ok), None), scr(External, Cont(LRes::Ok), None)], remove: false },
+                ZSpec { origin: name("overwrite.test."), handlers: vec![scr(External, Cont(LRes::Ok), None), scr(External, Skip, Some(Cont(LRes::Err(3))))], remove: false },
+                ZSpec { origin: name("breakok.test."), handlers: vec![scr(External, Brk(LRes::Ok), None), scr(External, Brk(LRes::Err(2)), Some(Brk(LRes::Err(2))))], remove: false },
+                ZSpec { origin: name("skipprimary.test."), handlers: vec![scr(External, Skip, None), scr(External, Cont(LRes::Ok), None)], remove: false },
+                ZSpec { origin: name("skipboth.test."), handlers: vec![scr(Primary, Skip, None), scr(Primary, Skip, None)], remove: false },
+                ZSpec { origin: name("primaryerr.test."), handlers: vec![scr(Primary, Cont(LRes::Err(3)), None), scr(Primary, Skip, Some(Cont(LRes::Ok)))], remove: false },
+                ZSpec { origin: name("breakerr.test."), handlers: vec![scr(Primary, Brk(LRes::Err(3)), None), scr(Primary, Skip, Some(Cont(LRes::Ok)))], remove: false },
+                ZSpec { origin: name("consultskip.test."), handlers: vec![scr(Primary, Cont(LRes::Ok), None), scr(Primary, Skip, Some(Skip))], remove: false },
+                ZSpec { origin: name("memfirst.test."), handlers: vec![HSpec::Mem { axfr: true }, scr(Primary, Skip, None)], remove: false },
             ],
             vec![],
             vec![],
@@ -1873,10 +2628,85 @@ fn hand_configs() -> Vec<(Vec<ZSpec>, Vec<IpNet>, Vec<IpNet>)> {
     ]
 }
 
+/// a `udp` line: 2–7 datagrams from distinct sources (interleaved clients), pauses between bursts,
+/// a script of send results
+fn gen_udp_script(r: &mut Rng, zones: &[ZSpec], deny: &[IpNet], allow: &[IpNet], i: &mut usize) -> String {
+    let k = r.range(2, 7) as usize;
+    let mut items = vec![];
+    for j in 0..k {
+        let mut bytes = gen_request(r, zones, *i);
+        *i += 1;
+        if bytes.len() > 1500 {
+            bytes.truncate(1500);
+        }
+        let src = gen_src(r, deny, allow);
+        items.push(format!("d/{}/{}/{}", ip_tok(src), 4000 + j, hex(&bytes)));
+        match r.below(6) {
+            0 | 1 => items.push("p".into()),
+            2 if r.chance(1, 3) => items.push("x".into()),
+            _ => {}
+        }
+    }
+    let n = r.below(k as u64 + 4) as usize;
+    let script: String = (0..n).map(|_| *r.pick(&['o', 'o', 'o', 'e', 'e', 'E', 'w', 'w'])).collect();
+    format!("udp {} {}", items.join(","), if script.is_empty() { "-".to_string() } else { script })
+}
+
+/// hand-built transport block: a zone with an RRset that fits no datagram, the real server loop,
+/// and send-failure scripts on the real `UdpStream`
+fn transport_block(run: &mut Runner, rec: &mut Recorder) {
+    let zones = vec![
+        ZSpec { origin: name("big.test."), handlers: vec![HSpec::Mem { axfr: true }], remove: false },
+        ZSpec { origin: name("example.com."), handlers: vec![HSpec::Mem { axfr: false }], remove: false },
+    ];
+    run.exec(&format!("begin {} - -", zones_tok(&zones)), rec);
+    let q = |n: &str, t: u16, edns: Option<u16>, id: u16| -> Vec<u8> {
+        let mut m = header(id, 1, 0, 1, 0, 0, if edns.is_some() { 1 } else { 0 });
+        m.extend(wire_name(&labels_of(&name(n))));
+        m.extend(t.to_be_bytes());
+        m.extend([0, 1]);
+        if let Some(p) = edns {
+            m.extend(opt_rr(p, 0, 0, 0, &[]));
+        }
+        m
+    };
+    let l = |proto: &str, m: &[u8]| format!("req {proto} 4:2130706433 {} ? ? ?", hex(m));
+    // the same requests through the hook (u/t) and through the real loop (U/T)
+    for proto in ["u", "U", "t", "T"] {
+        run.exec(&l(proto, &q("www.example.com.", 1, None, 0x0101)), rec);
+        // ≈ 70 kB RRset: 512 / 4096 octets → truncated; 65535 over UDP → does not fit an IPv4
+        // datagram (the send fails, the response is dropped); over TCP it fits the 64 kB frame
+        run.exec(&l(proto, &q("huge.big.test.", 16, None, 0x0102)), rec);
+        run.exec(&l(proto, &q("huge.big.test.", 16, Some(4096), 0x0103)), rec);
+        run.exec(&l(proto, &q("huge.big.test.", 16, Some(65535), 0x0104)), rec);
+        run.exec(&l(proto, &q("huge.big.test.", 16, Some(65507), 0x0105)), rec);
+        // … and the server still answers the next client
+        run.exec(&l(proto, &q("www.example.com.", 1, Some(1232), 0x0106)), rec);
+        run.exec(&l(proto, &q("big.test.", 252, None, 0x0107)), rec);
+        run.exec(&l(proto, &[0x12, 0x34, 0x01]), rec);
+        run.exec(&l(proto, &[]), rec);
+        let mut resp = q("www.example.com.", 1, None, 0x0108);
+        resp[2] |= 0x80;
+        run.exec(&l(proto, &resp), rec);
+    }
+    // the real UdpStream on a scripted socket: three clients, the middle response cannot be sent
+    let d = |ip: &str, port: u16, m: &[u8]| format!("d/{}/{port}/{}", ip_tok(ip.parse().unwrap()), hex(m));
+    let (a, b_, c) = (q("www.example.com.", 1, None, 1), q("example.com.", 6, Some(1232), 2), q("nozone.invalid.", 1, None, 3));
+    for send in ["-", "oeo", "oEo", "E", "EEE", "wowewo", "wwwEwwo", "eee", "ow"] {
+        run.exec(&format!("udp {},{},{} {send}", d("192.0.2.1", 4001, &a), d("192.0.2.2", 4002, &b_), d("2001:db8::3", 4003, &c)), rec);
+        run.exec(&format!("udp {},p,{},x,{},p {send}", d("192.0.2.1", 4001, &a), d("192.0.2.2", 4002, &b_), d("2001:db8::3", 4003, &c)), rec);
+    }
+    // datagrams that are owed nothing, between ones that are
+    let mut resp = a.clone();
+    resp[2] |= 0x80;
+    run.exec(&format!("udp {},{},{},{} Eo", d("192.0.2.1", 4001, &a), d("192.0.2.9", 4009, &resp), d("192.0.2.8", 4008, &[1, 2, 3]), d("192.0.2.2", 4002, &b_)), rec);
+    run.exec("end", rec);
+}
+
 pub fn run(o: &Opts, rec: &mut Recorder) {
     rec.rule = "raw request byte strings (valid queries/updates/notifies of every opcode, EDNS versions, QR=1, truncations at every length, count edits, bit flips, garbage tails, compressed questions, random bytes) × catalogs (nested/sibling/root/relative-origin zones, in-memory and scripted chained handlers) × allow/deny sets × UDP/TCP; a case is non-trivial when the server sent a response; distinct by case line (configuration lines excluded)".into();
     start_watchdog();
-    let rt = tokio::runtime::Builder::new_current_thread().enable_time().build().expect("runtime");
+    let rt = tokio::runtime::Builder::new_current_thread().enable_all().build().expect("runtime");
     let mut run = Runner { rt, cfg: None };
     for l in o.pre_lines.clone() {
         run.exec(&l, rec);
@@ -1892,7 +2722,7 @@ pub fn run(o: &Opts, rec: &mut Recorder) {
     // small-scope enumeration of the two flag octets of the header (QR, opcode, AA, TC, RD | RA, Z,
     // AD, CD, rcode) over a fixed question: quick = every value of each octet, thorough = all 65536
     {
-        let zones = vec![ZSpec { origin: name("example.com."), handlers: vec![HSpec::Mem { axfr: false }] }];
+        let zones = vec![ZSpec { origin: name("example.com."), handlers: vec![HSpec::Mem { axfr: false }], remove: false }];
         run.exec(&format!("begin {} - -", zones_tok(&zones)), rec);
         let q: Vec<u8> = [wire_name(&labels_of(&name("www.example.com."))), vec![0, 6, 0, 1]].concat();
         let mut one = |b2: u8, b3: u8, run: &mut Runner, rec: &mut Recorder| {
@@ -1914,7 +2744,7 @@ pub fn run(o: &Opts, rec: &mut Recorder) {
     }
     // directed body family: section × opcode × record shape, against one in-memory zone
     {
-        let zones = vec![ZSpec { origin: name("example.com."), handlers: vec![HSpec::Mem { axfr: false }] }];
+        let zones = vec![ZSpec { origin: name("example.com."), handlers: vec![HSpec::Mem { axfr: false }], remove: false }];
         run.exec(&format!("begin {} - -", zones_tok(&zones)), rec);
         for (label, m) in body_family() {
             rec.stat(&format!("bodyfam.{}", label.split('.').nth(2).unwrap_or("")));
@@ -1922,6 +2752,7 @@ pub fn run(o: &Opts, rec: &mut Recorder) {
         }
         run.exec("end", rec);
     }
+    transport_block(&mut run, rec);
     let blocks = o.n(500, 15000);
     let per_block = 30;
     let hand = hand_configs();
@@ -1935,12 +2766,52 @@ pub fn run(o: &Opts, rec: &mut Recorder) {
             (z, d, a)
         };
         run.exec(&format!("begin {} {} {}", zones_tok(&zones), nets_tok(&deny), nets_tok(&allow)), rec);
+        // one block in four also runs through the transports under the handler
+        let transports = if o.thorough() { bi % 16 == 1 } else { bi % 4 == 1 };
         for _ in 0..per_block {
             let bytes = gen_request(&mut r, &zones, i);
             i += 1;
             let src = gen_src(&mut r, &deny, &allow);
-            let proto = if r.chance(1, 3) { "t" } else { "u" };
-            run.exec(&format!("req {proto} {} {} ? ? ?", ip_tok(src), hex(&bytes)), rec);
+            let mut proto = if r.chance(1, 3) { "t" } else { "u" };
+            if transports && r.chance(1, 5) && bytes.len() < 60000 && !(bytes.len() >= 2 && bytes[..2] == MARK_ID.to_be_bytes()) {
+                // through Server::register_socket / register_listener on loopback
+                proto = if proto == "t" && r.chance(1, 2) { "T" } else { "U" };
+            }
+            let mut kind = "req";
+            if matches!(proto, "u" | "t") {
+                match r.below(40) {
+                    // Request::from_bytes + Catalog::handle_request without the gate in front
+                    0..=3 => kind = "cat",
+                    // a stream handle whose receiver is gone
+                    4 => proto = "x",
+                    _ => {}
+                }
+            }
+            run.exec(&format!("{kind} {proto} {} {} ? ? ?", ip_tok(src), hex(&bytes)), rec);
+            if transports && r.chance(1, 6) {
+                let l = gen_udp_script(&mut r, &zones, &deny, &allow, &mut i);
+                run.exec(&l, rec);
+            }
+            if transports && r.chance(1, 30) {
+                // several requests back to back on one TCP connection, sometimes a partial frame last
+                let mut st = vec![];
+                for _ in 0..r.range(1, 4) {
+                    let mut m = gen_request(&mut r, &zones, i);
+                    i += 1;
+                    m.truncate(3000);
+                    if m.len() >= 2 && m[..2] == MARK_ID.to_be_bytes() {
+                        m[0] ^= 1;
+                    }
+                    st.extend((m.len() as u16).to_be_bytes());
+                    st.extend(m);
+                }
+                match r.below(4) {
+                    0 => st.extend([0, 40, 1, 2, 3]),
+                    1 => st.push(0),
+                    _ => {}
+                }
+                run.exec(&format!("tcp {}", hex(&st)), rec);
+            }
         }
         run.exec("end", rec);
     }
